@@ -330,6 +330,7 @@ class PTFR(object):
         protected_field = self._golay.decode(buffer[1:4])
         self.llp = bool((protected_field >> 11) & 0x1)
         self.ptdp_offset = protected_field & 0x7FF
+        self._payload = bytes()
         self.payload = buffer[4:]
 
         return True
